@@ -151,8 +151,16 @@ func genSchedSpec(p *schedParams, c *Corpus, run int, cold bool) *RunSpec {
 				op.Kind = "ParseRender"
 			case x < 90:
 				op.Kind = "PkgConvert"
-			case x < 95:
+			case x < 93:
 				op.Kind = "ParseOnly"
+			case x < 96:
+				// another instance, of another configuration, built and used by this worker while
+				// the others use the shared one
+				ac := genConfig(ro.Split("aux"), "any")
+				if ro.Chance(1, 4) {
+					ac = spec.Cfg
+				}
+				op.Kind, op.Aux, op.Reader = "AuxConvert", &ac, false
 			default:
 				op.Kind = "RenderPre"
 				treeN++
